@@ -432,6 +432,38 @@ def d7_line_copy(db, rep):
                       "%s copies `%s` bytes from the text cursor, not the whole line (%s->line_length): what lies beyond is dropped without an error, so a "
                       "long but valid line (wide padding, deep indentation) parses to a different program" %
                       (f.name, unparse(sd.get(access_path(strip_casts(a[li])), a[li]))[:80], base), line=c.line)
+        # formatted copies: snprintf (dst, N, "%.*s", len, parser->p) keeps min (N - 1, len) characters
+        for c in f.calls():
+            nm = (c.name or "").replace("__builtin___", "").replace("_chk", "")
+            if nm not in ("snprintf", "sprintf"):
+                continue
+            a = c.args()
+            # __builtin___snprintf_chk (dst, n, flag, objsize, fmt, ...) vs snprintf (dst, n, fmt, ...)
+            fi = next((i_ for i_, x in enumerate(a) if strip_casts(x) is not None and strip_casts(x).k == "StringLiteral"), None)
+            if fi is None:
+                continue
+            fmt = strip_casts(a[fi]).get("str", "")
+            rest = a[fi + 1:]
+            srcs = [(i_, x) for i_, x in enumerate(rest) if (access_path(strip_casts(x)) or "").endswith("->p") and "parser" in (access_path(strip_casts(x)) or "")]
+            if not srcs or "s" not in fmt:
+                continue
+            from flow import upper_bound
+            sd = sd or single_defs(f)
+            base = access_path(strip_casts(srcs[0][1]))[:-len("->p")]
+            n += 1
+            rep.saw(f)
+            cap = strip_casts(a[1]).v if nm == "snprintf" and len(a) > 1 else None
+            prec = rest[srcs[0][0] - 1] if "%.*s" in fmt and srcs[0][0] >= 1 else None
+            pl = linear(prec, lambda nm_: sd.get(nm_)) if prec is not None else None
+            whole = pl is not None and pl[0] == base + "->line_length" and pl[1] == 0
+            fcx = Facts(f)
+            ub = upper_bound(fcx.conds(c), base + "->line_length")
+            ok = whole and cap is not None and ub is not None and ub <= cap - 1
+            rep.check(ok, "D7-LINE-COPY", where(f), "%s(%s)" % (nm, fmt[:12]),
+                      "the formatted copy of the current line keeps all %s->line_length characters (at most %s, buffer %s)" % (base, ub, cap),
+                      "%s copies the current line with %s into a buffer of %s bytes where the line can be %s characters long%s: the last character(s) of a "
+                      "line of exactly that length are dropped without an error, so `... 1234` parses as `123` when the spacing makes the line that long" %
+                      (f.name, nm, cap, ub if ub is not None else "any number of", "" if whole else " (and the precision is not the line length)"), line=c.line)
     if n < 1:
         raise AnalysisBroken("no copy out of the parser's text cursor found in orcparse.c")
 
